@@ -16,6 +16,51 @@ mod vclock;
 
 use rng::SplitMix64;
 use std::collections::HashSet;
+
+/// Counting allocator: live and peak heap bytes of this process (used by the C11 tie to measure what
+/// `Machine::from_str` allocates on compression bombs; two relaxed atomic operations per allocation).
+pub mod heapcount {
+    use std::alloc::{GlobalAlloc, Layout, System};
+    use std::sync::atomic::{AtomicUsize, Ordering::Relaxed};
+    pub static LIVE: AtomicUsize = AtomicUsize::new(0);
+    pub static PEAK: AtomicUsize = AtomicUsize::new(0);
+    pub struct Counting;
+    unsafe impl GlobalAlloc for Counting {
+        unsafe fn alloc(&self, l: Layout) -> *mut u8 {
+            let p = System.alloc(l);
+            if !p.is_null() {
+                let now = LIVE.fetch_add(l.size(), Relaxed) + l.size();
+                PEAK.fetch_max(now, Relaxed);
+            }
+            p
+        }
+        unsafe fn dealloc(&self, p: *mut u8, l: Layout) {
+            System.dealloc(p, l);
+            LIVE.fetch_sub(l.size(), Relaxed);
+        }
+        unsafe fn realloc(&self, p: *mut u8, l: Layout, new: usize) -> *mut u8 {
+            let q = System.realloc(p, l, new);
+            if !q.is_null() {
+                if new >= l.size() {
+                    let now = LIVE.fetch_add(new - l.size(), Relaxed) + (new - l.size());
+                    PEAK.fetch_max(now, Relaxed);
+                } else {
+                    LIVE.fetch_sub(l.size() - new, Relaxed);
+                }
+            }
+            q
+        }
+    }
+    /// peak heap growth (bytes above the level at entry) while `f` runs
+    pub fn peak_during<R>(f: impl FnOnce() -> R) -> (R, usize) {
+        let base = LIVE.load(Relaxed);
+        PEAK.store(base, Relaxed);
+        let r = f();
+        (r, PEAK.load(Relaxed).saturating_sub(base))
+    }
+}
+#[global_allocator]
+static GLOBAL: heapcount::Counting = heapcount::Counting;
 use std::fs::File;
 use std::io::{BufWriter, Write};
 
